@@ -212,3 +212,103 @@ pub fn path_case(case: &J) -> J {
         Err(p) => json!({"e": "panic", "where": "path-op", "id": 0, "message": panic_message(&p), "case": case}),
     }
 }
+
+// ---------------------------------------------------------------------------------------------
+// C10 / C11: operators, through compiled programs (`.l OP .r`)
+
+/// Operand / result encoding for spec/Ops.tla: integers always as four 16-bit limbs, floats as
+/// IEEE-754 bit limbs, byte strings as byte sequences, timestamps as nanosecond limbs.
+pub fn ops_json(v: &Value) -> J {
+    match v {
+        Value::Integer(i) => json!({"t": "int", "w": enc::limbs_u64(*i as u64)}),
+        Value::Float(f) => json!({"t": "float", "b": enc::limbs_u64(f.into_inner().to_bits())}),
+        Value::Bytes(b) => json!({"t": "bytes", "c": b.iter().map(|x| *x as u64).collect::<Vec<_>>()}),
+        Value::Timestamp(t) => json!({"t": "ts", "w": enc::limbs_u64(t.timestamp_nanos_opt().unwrap_or(0) as u64)}),
+        Value::Array(a) => json!({"t": "arr", "e": a.iter().map(ops_json).collect::<Vec<_>>()}),
+        Value::Object(o) => {
+            let mut m = serde_json::Map::new();
+            for (k, x) in o {
+                m.insert(k.to_string(), ops_json(x));
+            }
+            json!({"t": "obj", "m": J::Object(m)})
+        }
+        other => enc::val_to_json(other),
+    }
+}
+
+pub fn ops_val(j: &J) -> Value {
+    match j["t"].as_str().unwrap_or("") {
+        "int" => Value::Integer(enc::limbs_to_u64(&j["w"]) as i64),
+        "float" => Value::Float(ordered_float::NotNan::new(f64::from_bits(enc::limbs_to_u64(&j["b"]))).expect("NaN operand")),
+        "bytes" => Value::Bytes(bytes::Bytes::from(j["c"].as_array().map(|a| a.iter().map(|x| x.as_u64().unwrap() as u8).collect::<Vec<u8>>()).unwrap_or_default())),
+        "ts" => {
+            use chrono::TimeZone;
+            Value::Timestamp(chrono::Utc.timestamp_nanos(enc::limbs_to_u64(&j["w"]) as i64))
+        }
+        "arr" => Value::Array(j["e"].as_array().map(|a| a.iter().map(ops_val).collect()).unwrap_or_default()),
+        "obj" => Value::Object(j["m"].as_object().map(|o| o.iter().map(|(k, v)| (k.as_str().into(), ops_val(v))).collect()).unwrap_or_default()),
+        _ => enc::json_to_val(j),
+    }
+}
+
+pub const OPS: [(&str, &str); 10] = [("add", "+"), ("sub", "-"), ("mul", "*"), ("div", "/"), ("eq", "=="), ("ne", "!="),
+                                     ("lt", "<"), ("le", "<="), ("gt", ">"), ("ge", ">=")];
+
+pub struct OpPrograms {
+    progs: Vec<(String, vrl::compiler::Program)>,
+}
+
+impl OpPrograms {
+    pub fn new() -> Self {
+        let fns = vrl::stdlib::all();
+        let mut progs = vec![];
+        for (name, sym) in OPS {
+            let src = if name == "eq" || name == "ne" {
+                format!("[.l {sym} .r, null]")
+            } else {
+                format!("r, e = .l {sym} .r\n[r, e]")
+            };
+            let c = vrl::compiler::compile(&src, &fns).unwrap_or_else(|d| panic!("operator program {src} rejected: {d:?}"));
+            progs.push((name.to_owned(), c.program));
+        }
+        Self { progs }
+    }
+
+    fn eval(&self, l: &Value, r: &Value) -> J {
+        let tz = vrl::compiler::TimeZone::Named(chrono_tz::UTC);
+        let mut out = serde_json::Map::new();
+        for (name, prog) in &self.progs {
+            let mut ev = std::collections::BTreeMap::new();
+            ev.insert("l".into(), l.clone());
+            ev.insert("r".into(), r.clone());
+            let mut target = TargetValue { value: Value::Object(ev), metadata: Value::Object(Default::default()), secrets: Secrets::new() };
+            let mut rt = vrl::compiler::runtime::Runtime::default();
+            let res = catch_unwind(AssertUnwindSafe(|| rt.resolve(&mut target, prog, &tz)));
+            let j = match res {
+                Err(p) => json!({"k": "panic", "m": panic_message(&p)}),
+                Ok(Err(t)) => json!({"k": "err", "m": t.to_string()}),
+                Ok(Ok(Value::Array(a))) if a.len() == 2 => {
+                    if a[1] == Value::Null { json!({"k": "ok", "v": ops_json(&a[0])}) } else { json!({"k": "err", "m": a[1].to_string()}) }
+                }
+                Ok(Ok(other)) => json!({"k": "odd", "m": other.to_string()}),
+            };
+            out.insert(name.clone(), j);
+        }
+        J::Object(out)
+    }
+
+    pub fn pair(&self, case: &J) -> J {
+        let l = ops_val(&case["l"]);
+        let r = ops_val(&case["r"]);
+        let ops = self.eval(&l, &r);
+        // the definition of mixed integer/float operations (and of integer division): the float
+        // operation on the converted integer
+        let conv = |v: &Value| match v {
+            Value::Integer(i) => Value::Float(ordered_float::NotNan::new(*i as f64).unwrap()),
+            other => other.clone(),
+        };
+        let numeric = |v: &Value| matches!(v, Value::Integer(_) | Value::Float(_));
+        let convd = if numeric(&l) && numeric(&r) { self.eval(&conv(&l), &conv(&r)) } else { json!({"none": true}) };
+        json!({"e": "pair", "l": case["l"], "r": case["r"], "ops": ops, "conv": convd})
+    }
+}
